@@ -12,6 +12,8 @@ package checks
 import (
 	"bytes"
 	"fmt"
+	"os"
+	"strings"
 	"testing"
 
 	"github.com/absfs/absnfs"
@@ -29,6 +31,9 @@ type c22Op struct {
 	Len    int    `json:"len"`
 	Fill   byte   `json:"fill"`
 	Stable uint32 `json:"stable"`
+	// FaultAt > 0: the FaultAt-th backend call of this request fails with c14Faults[FaultErr] (disk error, no space ...)
+	FaultAt  int `json:"fault_at,omitempty"`
+	FaultErr int `json:"fault_err,omitempty"`
 }
 
 type c22Case struct {
@@ -45,6 +50,9 @@ func genC22(t *rapid.T) c22Case {
 		op := c22Op{Kind: pick(t, "kind", "write", "write", "write", "write", "write", "write", "write", "write", "commit", "commit", "setsize", "setsize", "read", "read", "create", "create", "toggleasync"), File: rapid.IntRange(0, 1).Draw(t, "file"),
 			Off: pick(t, "off", 0, 1, 100, 4095, 4096, 4097, 9000, rapid.IntRange(0, 12000).Draw(t, "roff")), Len: pick(t, "len", 0, 1, 7, 100, 4096, 5000), Fill: rapid.Byte().Draw(t, "fill"),
 			Stable: pick(t, "stable", uint32(nfsx.Unstable), nfsx.DataSync, nfsx.FileSync, nfsx.FileSync)}
+		if rapid.IntRange(0, 5).Draw(t, "fault") == 0 {
+			op.FaultAt, op.FaultErr = rapid.IntRange(1, 6).Draw(t, "fault_at"), pick(t, "fault_err", 0, 0, 8, 9, 15, 17, 33)
+		}
 		c.Ops = append(c.Ops, op)
 	}
 	return c
@@ -56,8 +64,12 @@ func runC22(tb stat.TB, c c22Case) {
 	const id, check = "C22", "TestC22"
 	v := vfs.New()
 	v.CrashMode = true
-	s := newSession(tb, v, absnfs.ExportOptions{AttrCacheTimeout: 1, AttrCacheSize: 2, Async: c.Async})
+	faulty := vfs.NewFaulty(v)
+	s := newSessionOn(tb, faulty, v, absnfs.ExportOptions{AttrCacheTimeout: 1, AttrCacheSize: 2, Async: c.Async})
 	defer s.close()
+	faults := 0
+	var unknown [2][]struct{ lo, hi int64 } // ranges a failed (faulted) request may have left in any state
+	var wrecked [2]bool                      // a failed SETATTR(size): the whole file is in an unknown state
 	other, err := absnfs.NewServer(absnfs.ServerOptions{})
 	if err != nil {
 		tb.Fatalf("harness: %v", err)
@@ -99,13 +111,25 @@ func runC22(tb stat.TB, c c22Case) {
 			}
 			want := m.read(0, m.size)
 			fl, inFl := inflight[i]
-			if dsize < m.size && !(inFl && fl.lo == -1) {
+			if dsize < m.size && !(inFl && fl.lo == -1) && !wrecked[i] {
 				failSig, failure = "stable-data-lost-on-crash", fmt.Sprintf("%s: durable size of %s is %d, but %d bytes were acknowledged as stable", where, name, dsize, m.size)
 				return
+			}
+			if wrecked[i] {
+				continue
 			}
 			for p := int64(0); p < m.size && p < int64(len(got)); p++ {
 				if inFl && (fl.lo == -1 || (p >= fl.lo && p < fl.hi)) {
 					continue // the request in flight may or may not have reached this byte
+				}
+				skip := false
+				for _, u := range unknown[i] {
+					if p >= u.lo && p < u.hi {
+						skip = true
+					}
+				}
+				if skip {
+					continue // a request that failed on a backend error may have left anything here
 				}
 				if got[p] != want[p] {
 					failSig, failure = "stable-data-lost-on-crash", fmt.Sprintf("%s: byte %d of %s is %#x in the durable image, but %#x was acknowledged as stable (a crash here loses it)", where, p, name, got[p], want[p])
@@ -125,6 +149,19 @@ func runC22(tb stat.TB, c c22Case) {
 			name := fmt.Sprintf("s%d", op.File)
 			what := fmt.Sprintf("op#%d %s %s", oi, op.Kind, name)
 			inflight = map[int]span{}
+			faulted := false
+			if op.FaultAt > 0 {
+				at, ferr := op.FaultAt, c14Faults[op.FaultErr%len(c14Faults)]
+				faulty.Arm(func(fop string, paths []string, n int) error {
+					if n != at {
+						return nil
+					}
+					faulted = true
+					return &os.PathError{Op: strings.ToLower(fop), Path: "/" + name, Err: ferr}
+				})
+			} else {
+				faulty.Arm(nil)
+			}
 			switch op.Kind {
 			case "create":
 				res := s.nfs(nfsx.ProcCreate, nfsx.ArgsCreate(root, name, nfsx.Unchecked, nfsx.Sattr{}, [8]byte{}))
@@ -148,7 +185,13 @@ func runC22(tb stat.TB, c c22Case) {
 				inflight[op.File] = span{int64(op.Off), int64(op.Off + op.Len)}
 				res := s.nfs(nfsx.ProcWrite, nfsx.ArgsWrite(fhs[op.File], uint64(op.Off), uint32(len(data)), op.Stable, data))
 				inflight = map[int]span{}
+				if faulted {
+					faults++
+				}
 				if res.Status != nfsx.OK {
+					if faulted {
+						unknown[op.File] = append(unknown[op.File], struct{ lo, hi int64 }{int64(op.Off), int64(op.Off + op.Len)})
+					}
 					continue
 				}
 				if verf == nil {
@@ -193,6 +236,8 @@ func runC22(tb stat.TB, c c22Case) {
 				if res.Status == nfsx.OK {
 					promised[op.File].truncate(int64(op.Off))
 					pending[op.File].truncate(int64(op.Off))
+				} else if faulted {
+					wrecked[op.File] = true
 				}
 			case "toggleasync":
 				o := s.e.NFS.GetExportOptions()
@@ -229,7 +274,11 @@ func runC22(tb stat.TB, c c22Case) {
 	}
 	stat.Label("crash_points", int64(crashPoints))
 	stat.Label("crash_points_after_stable_write", int64(ntPoints))
-	stat.Case(c, ntPoints > 0, fmt.Sprintf("async_%v", c.Async))
+	ls := []string{fmt.Sprintf("async_%v", c.Async)}
+	if faults > 0 {
+		ls = append(ls, "write_failed_on_backend_fault")
+	}
+	stat.Case(c, ntPoints > 0, ls...)
 }
 
 var propC22 = defProp("C22", "TestC22", genC22, runC22)
